@@ -140,6 +140,29 @@ def run_grid(ctx, nix, spec, base, base_snap):
                     f.close()
                 except Exception:
                     pass
+        if not opened and mode != "r" and predicate(libver, v, "r", idk, fmt):
+            # the writable open was refused, the file is readable: a read-only session opened right afterwards in the same process
+            # (nothing done in between, no garbage collection asked for) is a read-only session like any other
+            ro = None
+            try:
+                ro = nix.File.open(work, "r")
+                ctx.count("readonly_sessions_after_refused_open")
+                for label, call in (("create_block", lambda: ro.create_block("after_refusal", "t")),
+                                    ("create_section", lambda: ro.create_section("after_refusal", "t")),
+                                    ("force_updated_at", lambda: ro.force_updated_at(12345))):
+                    try:
+                        call()
+                        ctx.violation("readonly_session_after_refused_open:mutation_accepted:%s" % label, rep, rep)
+                    except Exception:
+                        pass
+            except Exception as e:
+                ctx.violation("readonly_session_after_refused_open:open_fails_%s" % type(e).__name__, dict(rep, error=repr(e)[:200]), rep)
+            finally:
+                if ro is not None:
+                    try:
+                        ro.close()
+                    except Exception:
+                        pass
         gc.collect()
         if mode == "r" or not opened:
             after = sha(work)
@@ -181,6 +204,46 @@ def run_grid(ctx, nix, spec, base, base_snap):
                             ctx.violation("created_file_header_wrong:%s" % mode, rep, rep)
                     except Exception as e:
                         ctx.violation("created_file_unreadable:%s" % mode, dict(rep, error=repr(e)[:200]), rep)
+    # creating opens with every option: the new file has a complete fresh header and is then a file like any other
+    if spec["i"] == 2:
+        k = 0
+        for how in ("w_on_existing", "w_on_missing", "a_on_missing"):
+            for auto in (True, False):
+                for comp in (nix.Compression.Auto, nix.Compression.No, nix.Compression.DeflateNormal):
+                    k += 1
+                    p = env.scratch_file("c11_create_%d.nix" % k)
+                    if os.path.exists(p):
+                        os.remove(p)
+                    if how == "w_on_existing":
+                        shutil.copyfile(base, p)
+                    rep = {"part": "creating_open", "how": how, "auto_update_timestamps": auto, "compression": str(comp)}
+                    ctx.case(("creating_open", how, auto, str(comp)))
+                    ctx.count("creating_opens")
+                    try:
+                        f = nix.File.open(p, "w" if how.startswith("w") else "a", compression=comp, auto_update_timestamps=auto)
+                        try:
+                            hdr = {"format": f.format, "version": tuple(f.version), "id_ok": bool(nix.util.is_uuid(f.id)),
+                                   "created_at": f.created_at, "updated_at": f.updated_at, "blocks": len(f.blocks), "sections": len(f.sections)}
+                        finally:
+                            f.close()
+                    except Exception as e:
+                        ctx.violation("creating_open:fresh_header_incomplete_or_unreadable:%s" % type(e).__name__, dict(rep, error=repr(e)[:200]), rep)
+                        continue
+                    if not (hdr["format"] == "nix" and hdr["version"] == libver and hdr["id_ok"] and isinstance(hdr["created_at"], int)
+                            and isinstance(hdr["updated_at"], int) and hdr["blocks"] == 0 and hdr["sections"] == 0):
+                        ctx.violation("creating_open:header_wrong", dict(rep, header={a: str(b) for a, b in hdr.items()}), rep)
+                    before = sha(p)
+                    for mode in ("r", "a"):
+                        try:
+                            g = nix.File.open(p, mode)
+                            got = (g.created_at, g.updated_at)
+                            g.close()
+                            if got != (hdr["created_at"], hdr["updated_at"]):
+                                ctx.violation("creating_open:header_times_differ_after_reopen:%s" % mode, dict(rep, before=[hdr["created_at"], hdr["updated_at"]], after=list(got)), rep)
+                        except Exception as e:
+                            ctx.violation("creating_open:new_file_cannot_be_opened:%s:%s" % (mode, type(e).__name__), dict(rep, error=repr(e)[:200]), rep)
+                        if mode == "r" and sha(p) != before:
+                            ctx.violation("creating_open:readonly_open_changed_new_file", rep, rep)
     # an existing path that is not an HDF5 file at all, or a damaged one: never "missing", never to be replaced by r / a
     if spec["i"] == 1:
         with open(base, "rb") as fh:
